@@ -474,8 +474,8 @@ class Interp:
         raise OutsideSubset(f"cannot view {type(v).__name__} as Val")
 
     # -- running a function ------------------------------------------------------------------------------
-    def run_function(self, module: str, qualname: str, args: dict[str, Any], st: State | None = None) -> list[PathResult]:
-        fn = extract.find_def(module, qualname)
+    def run_function(self, module: str, qualname: str, args: dict[str, Any], st: State | None = None, fndef: ast.AST | None = None) -> list[PathResult]:
+        fn = fndef if fndef is not None else extract.find_def(module, qualname)
         st = st or State()
         frame_env = dict(args)
         results: list[PathResult] = []
